@@ -233,7 +233,7 @@ def diff_obs(a, b, ignore=("nonfinite", "trace"), only=None):
     for c in sorted(set(a) | set(b)):
         def keep(k):
             kk = k.split(".", 1)[1]
-            return kk not in ignore and not kk.startswith("kkt.") and (only is None or kk in only)
+            return kk not in ignore and not kk.startswith(("kkt.", "rt.", "tr.")) and (only is None or kk in only)
         la = {k: v for k, v in a.get(c, []) if keep(k)}
         lb = {k: v for k, v in b.get(c, []) if keep(k)}
         # a model error (checked division by zero / index error in the Gallina model) ends the comparison of that case:
